@@ -82,7 +82,7 @@ def gen(tier, rng, shard, nshards):
         if alg == "PowerIteration":
             k, which = 1, "LM"
         cap = S.pick(rng, ["n", "n+4", "default"])
-        yield {"spec": node, "kind": kind, "k": k, "which": which, "alg": alg, "cap": cap, "fn": S.pick(rng, ["eig", "eig", "eig", "eigmax", "eigmin"])}
+        yield {"spec": node, "kind": kind, "k": k, "which": which, "alg": alg, "cap": cap, "fn": S.pick(rng, ["eig", "eig", "eig", "eigmax", "eigmin"]), "reuse": bool(rng.random() < 0.3)}
 
 
 def make_alg(case, n):
@@ -180,7 +180,14 @@ def run_case(ctx, case):
     if case["alg"] == OMIT:
         out = ctx.call(L.eig, A, k, which) if which != "LM" else ctx.call(L.eig, A, k)
     else:
-        out = ctx.call(L.eig, A, k, which, make_alg(case, n))
+        alg_obj = make_alg(case, n)
+        if case.get("reuse"):
+            # the same algorithm object was used before, on a smaller operator (an options object is a value: what it was
+            # used for earlier must not matter)
+            tiny = cola.SelfAdjoint(cola.ops.Dense(np.diag([1.0, 3.0]).astype(M.dtype)))
+            ctx.call(L.eig, tiny, 1, "LM", alg_obj)
+            preds["alg_object_reused"] = True
+        out = ctx.call(L.eig, A, k, which, alg_obj)
     if is_err(out):
         ctx.check("returns", False, site=site, preds=preds, detail={"error": repr(out)})
         return
